@@ -150,13 +150,15 @@ static int base_level = -1, cur_level, hook_calls;
 static char vin_tok[NTOK + 1];
 static int vin_tokkind;
 static int the_token;
+static int body_lines; /* newlines inside the (empty) nested body */
 
 int cfg_yylex(cfg_t *cfg)
 {
 	(void)cfg;
 	if (cur_level > base_level) {
-		/* body of a nested section / skipped section: served as empty */
+		/* body of a nested section / skipped section: served as empty, but it may span lines */
 		n_lex_nested++;
+		cfg->line += body_lines;
 		cfg_yylval = "}";
 		return '}';
 	}
@@ -181,6 +183,7 @@ static int n_parsecb, n_validcb, n_func, n_freecb;
 static int cb_parse_rc, cb_valid_rc, cb_func_rc;
 static char cb_parse_arg[NTOK + 1];
 static int cb_valid_seen_nvalues;
+static int cb_valid_line;
 static int cb_valid_lex_calls;
 static int func_argc;
 static char func_argv[3][NTOK + 1];
@@ -213,6 +216,7 @@ static int valid_cb(cfg_t *cfg, cfg_opt_t *opt)
 	(void)cfg;
 	n_validcb++;
 	cb_valid_seen_nvalues = (int)opt->nvalues;
+	cb_valid_line = cfg->line;
 	cb_valid_lex_calls = n_lex_main + n_lex_nested;
 	return cb_valid_rc;
 }
@@ -545,6 +549,11 @@ int main(void)
 		V_IN_INT(vin_cb_parse_rc);
 		V_IN_INT(vin_cb_valid_rc);
 		V_IN_INT(vin_cb_func_rc);
+		{
+			V_IN_INT(vin_body_lines);
+			V_ASSUME(vin_body_lines >= 0 && vin_body_lines <= 1000);
+			body_lines = vin_body_lines;
+		}
 		cb_parse_rc = vin_cb_parse_rc;
 		cb_valid_rc = vin_cb_valid_rc;
 		cb_func_rc = vin_cb_func_rc;
